@@ -29,6 +29,13 @@ def _env(engine=None):
     return e
 
 
+def mem_for(engine):
+    # whole-session glue (engine `small`) needs 10-30 GB per query
+    if engine == "small":
+        return max(MEM_KB, 36 * 1024 * 1024)
+    return MEM_KB
+
+
 def seed_target(engine, target):
     """copy the warmed dependency build of the base tree (if any) so a first run does not rebuild deps"""
     if os.path.exists(target):
@@ -58,10 +65,15 @@ def run_kani(engine, tag, tier, hs, log_path, overall_timeout):
         os.remove(json_out)
     per = max([h.timeout for h in hs if h.timeout] + [300 if tier == "quick" else (60 if tier == "dev" else 1800)])
     jobs = max(1, min(JOBS, len(hs)))
+    mem_kb = MEM_KB
+    if engine == "small" and not os.environ.get("VERIF_JOBS"):
+        # whole-session glue: 10-20 GB per query
+        jobs = max(1, min(4, len(hs)))
+        mem_kb = max(MEM_KB, 36 * 1024 * 1024)
     # harness filters are substring matches: make them unambiguous by anchoring on the module path
     filters = [f"verif_{h.module}::{h.name}" for h in hs]
     cmd = kani_cmd(engine, target, filters, per, json_out, jobs)
-    shell = f"ulimit -v {MEM_KB}; exec " + " ".join(_q(c) for c in cmd)
+    shell = f"ulimit -v {mem_kb}; exec " + " ".join(_q(c) for c in cmd)
     t0 = time.time()
     with open(log_path, "w") as lf:
         lf.write("$ " + shell + "\n")
@@ -270,7 +282,7 @@ def playback(engine, tag, tier, h, replay_dir):
     cmd = ["cargo", "kani", "-p", PACKAGE[engine], "-Z", "stubbing", "-Z", "unstable-options", "-Z", "concrete-playback",
            "--concrete-playback=print", "--harness", f"verif_{h.module}::{h.name}",
            "--harness-timeout", f"{max(h.timeout, 1800)}s", "--target-dir", target]
-    shell = f"ulimit -v {MEM_KB}; exec " + " ".join(_q(c) for c in cmd)
+    shell = f"ulimit -v {mem_for(engine)}; exec " + " ".join(_q(c) for c in cmd)
     with open(log, "w") as lf:
         subprocess.run(["bash", "-c", shell], cwd=src, env=_env(engine), stdout=lf, stderr=subprocess.STDOUT)
     with open(log) as lf:
